@@ -158,6 +158,21 @@ var kinds = []string{
 	"rejected.calls", "private.alias",
 }
 
+// longList: list lengths of the multi-scalar operations by the op's C
+// parameter (0: the two / three term call).  Batch verification is where
+// these routines are used concurrently, and pooled or chunked scratch state
+// only comes into play from some length on.
+var longList = []int{0, 0, 32, 40, 70, 260}
+
+// list builds an n-term list out of the shared scalars and points.
+func (e *env) list(n, a, b int) ([]*secp256k1.Scalar, []*secp256k1.Point) {
+	ss, ps := make([]*secp256k1.Scalar, n), make([]*secp256k1.Point, n)
+	for i := range ss {
+		ss[i], ps[i] = e.scs[(a+i)%3], e.pts[(b+i/3)%3]
+	}
+	return ss, ps
+}
+
 func b2(bs ...[]byte) []byte {
 	var out []byte
 	for _, b := range bs {
@@ -235,8 +250,16 @@ func (e *env) exec(o op) []byte {
 	case "point.basemult":
 		return secp256k1.NewIdentityPoint().ScalarBaseMult(e.scs[a3]).CompressedBytes()
 	case "point.multimult":
+		if n := longList[o.C%len(longList)]; n > 0 {
+			ss, ps := e.list(n, o.A, o.B)
+			return secp256k1.NewIdentityPoint().MultiScalarMult(ss, ps).CompressedBytes()
+		}
 		return secp256k1.NewIdentityPoint().MultiScalarMult([]*secp256k1.Scalar{e.scs[a3], e.scs[b3], e.scs[c3]}, []*secp256k1.Point{e.pts[c3], e.pts[a3], e.pts[b3]}).CompressedBytes()
 	case "point.multimult.vartime":
+		if n := longList[o.C%len(longList)]; n > 0 {
+			ss, ps := e.list(n, o.A, o.B)
+			return secp256k1.NewIdentityPoint().MultiScalarMultVartime(ss, ps).CompressedBytes()
+		}
 		return secp256k1.NewIdentityPoint().MultiScalarMultVartime([]*secp256k1.Scalar{e.scs[a3], e.scs[b3]}, []*secp256k1.Point{e.pts[c3], e.pts[a3]}).CompressedBytes()
 	case "point.doublemult.vartime":
 		return secp256k1.NewIdentityPoint().DoubleScalarMultBasepointVartime(e.scs[a3], e.scs[b3], e.pts[c3]).CompressedBytes()
